@@ -4,6 +4,7 @@ import os
 import core
 
 OPS = ["matprog", "map_lines", "diag"]
+ROUTES = ("idx", "rows", "cols", "slice", "ptr", "mintr", "mintc", "disp")
 
 
 def first_bad(rec, info):
@@ -12,7 +13,7 @@ def first_bad(rec, info):
     for k, o in enumerate(rec["obs"]):
         want = exp.get(str(k))
         for reg in ("r", "c"):
-            for route in ("idx", "rows", "cols", "slice", "disp"):
+            for route in ROUTES:
                 if want is not None and o[reg][route] != want:
                     return k, reg, route
     return None
@@ -35,7 +36,7 @@ def describe(rec, info):
     for k, o in enumerate(rec["obs"]):
         want = exp.get(str(k))
         for reg in ("r", "c"):
-            for route in ("idx", "rows", "cols", "slice", "disp"):
+            for route in ROUTES:
                 if want is not None and o[reg][route] != want:
                     return ("program %s from the %sx%s symbol matrix: after call %d (%s) the %s value read through '%s' is %s, "
                             "the abstract matrix is %s" % ([c["c"] for c in rec["calls"]], rec["n0"], rec["n0"], k,
@@ -57,11 +58,11 @@ def run(ctx):
     ctx.rule = ("TLC explores the matrix-API machine (MC_MatProg): every program of <= 2 (quick) / 3 (thorough) calls over "
                 "{transposed, transpose, layout conversion, resize to the other two sizes, the 8 flat/nested array round "
                 "trips (same and crossed row/column), identity, zero, with_diagonal(diagonal), map, map2 with the transpose, "
-                "as_, indexed write, write through the mutable flat view} from the symbol matrix of each size, checking "
+                "as_, indexed write, write through the mutable flat view, write through the raw mutable pointer, round trip through the mint row / column matrix} from the symbol matrix of each size, checking "
                 "that the stored lines of a row-major and of a column-major refinement always abstract to the machine's "
                 "matrix; every program is replayed on a real row-major and a real column-major value side by side and "
-                "after EVERY call both are projected through 5 routes (m[(i,j)], into_row_array, into_col_array, flat "
-                "slice view read with gl_should_transpose, Display) that TLC compares with the abstract matrix; plus long "
+                "after EVERY call both are projected through 8 routes (m[(i,j)], into_row_array, into_col_array, flat "
+                "slice view and as_row_ptr/as_col_ptr reads interpreted with gl_should_transpose (is_packed must hold), mint RowMatrix / ColumnMatrix, Display) that TLC compares with the abstract matrix; plus long "
                 "random programs and single records for map_rows/map_cols, diagonal, trace, row/col counts; "
                 "non-trivial = program with >= 2 calls")
     thorough = ctx.tier == "thorough"
